@@ -1,24 +1,27 @@
 #!/bin/bash
-# re-run every stored seeded change against its property's quick check (does not overwrite stored files)
+# re-run every stored seeded change against its property's quick check; updates meta.json -> current_check (nothing else is overwritten)
+# usage: reconfirm_all.sh [glob under seeded/, default '*']
 cd /verif
 export VERIF_EVIDENCE_DIR=$(mktemp -d /tmp/seed_evidence.XXXXXX)
-for d in seeded/C*; do
-  id=$(basename $d)
-  for p in $d/patch*.diff; do
-    cd /repo; git diff --quiet || { echo "repo dirty"; exit 2; }
-    if ! git apply --check /verif/$p 2>/dev/null; then echo "$p NOAPPLY"; cd /verif; continue; fi
-    git apply /verif/$p; cd /verif
-    out=$(VERIF_SEED=1 timeout 1200 /venv/bin/python tools/check.py $id --tier quick 2>&1); rc=$?
-    git -C /repo checkout -- .
-    echo "$p rc=$rc viol=$(echo "$out" | grep -c "^VIOLATION property=$id")"
-  done
-done
-for d in seeded/regress-*; do
-  id=$(echo $(basename $d) | cut -d- -f2)
-  cd /repo; git apply --check /verif/$d/patch.diff 2>/dev/null || { echo "$d NOAPPLY"; cd /verif; continue; }
+pat="${1:-*}"
+for d in seeded/$pat; do
+  [ -f $d/patch.diff ] || continue
+  id=$(python3 -c "import json;print(json.load(open('$d/meta.json'))['property'])")
+  cd /repo; git diff --quiet || { echo "repo dirty"; exit 2; }
+  if ! git apply --check /verif/$d/patch.diff 2>/dev/null; then echo "$d NOAPPLY"; cd /verif; continue; fi
   git apply /verif/$d/patch.diff; cd /verif
   out=$(VERIF_SEED=1 timeout 1200 /venv/bin/python tools/check.py $id --tier quick 2>&1); rc=$?
   git -C /repo checkout -- .
-  echo "$d rc=$rc viol=$(echo "$out" | grep -c "^VIOLATION property=$id")"
+  v=$(echo "$out" | grep -c "^VIOLATION property=$id")
+  echo "$d rc=$rc viol=$v"
+  python3 - "$d" "$id" "$rc" "$v" <<'PY'
+import json, sys
+d, pid, rc, v = sys.argv[1:]
+m = json.load(open(d + "/meta.json"))
+cur = f"tools/check.py {pid} --tier quick with the change applied: rc={rc} viol={v}"
+if "changes" in m: m["changes"][0]["current_check"] = cur
+else: m["current_check"] = cur
+json.dump(m, open(d + "/meta.json", "w"), indent=1); open(d + "/meta.json", "a").write("\n")
+PY
 done
 rm -rf "$VERIF_EVIDENCE_DIR"
